@@ -51,6 +51,22 @@ PROPS = {
         "open_statements": ["from_ring_to_ring (all depths)", "to_ring_from_ring (all depths)", "ring_order", "ring_center_agrees"],
         "assumptions": COMMON_ASSUME,
     },
+    "C04": {
+        "claim": "Theorems for every input at the base level: the twelve base cells glue consistently (seam table entry (b,dir) -> b' and direction_from_neighbour names the way back to b, all 12x8 entries), each base cell has exactly 6 base-cell neighbours, the two direction tables agree, out-of-range cell numbers are rejected. The neighbour code (neighbour_from_parts with the three seam tables, the bit-level fast path for inner cells, neighbours/neighbour) is modelled for every depth and compared with the code exhaustively for depth<=4 (quick)/<=7 (thorough) and on the 12 x (4 corners, 4 borders, cells next to them, interior) classes at all 30 depths. Independent oracle from vertex keys (points of the HEALPix plane identified across facet seams and poles): labelling, symmetry, distinctness, count (8, or 7/6 at the three-cell points) at every depth, and exact equality with the set of touching cells exhaustively for depth<=4 (<=6 thorough). Kernel evaluation of exact adjacency on the model at depths 0-1 is reported as a test.",
+        "note": "PARTIAL proof: base-level (finite) theorems proved for all entries; neighbour_labelled / neighbours_complete for every depth are open statements. Trusted: Lean kernel, hand-written model Model/Topo.lean (seam tables transcribed by hand, tied by exhaustive correspondence).",
+        "level": "proof",
+        "trusted_base": ["Model/Topo.lean: hand-written mirror of neighbour_from_parts, ncp/eqr/spc_neighbour, inner_cell_neighbours, neighbours, compass-point and direction tables"],
+        "open_statements": ["neighbour_labelled (every n)", "neighbours_complete (every n)", "neighbours_symmetric (every n)", "inner_bits_correct"],
+        "assumptions": COMMON_ASSUME,
+    },
+    "C14": {
+        "claim": "Theorem for every input: the convenience functions accept exactly depth+delta_depth<=29 (DEPTH_MAX regenerated from the source; repaired behaviour of F6). internal_edge, internal_edge_sorted (the k0..k3 loop, repaired: F9), internal corners/parts, external_edge(_sorted) and external_edge_struct with the direction tables are modelled and compared with the code exhaustively for (depth<=2, delta<=4) quick / (depth<=4, delta<=6) thorough and on corner/border/interior classes of every base cell at all depths with delta up to 12 and depth+delta=29. Oracles: internal edge = border descendants, length 4*2^delta-4, closed walk from the south corner through the east corner with adjacent consecutive cells, sorted variants = sorted same set, parts/corners = matching subsets, external edge = deeper-depth cells outside the cell adjacent to a descendant, no duplicates, struct parts filed under the side/corner they face. Kernel evaluation for delta=1..5 is reported as a test.",
+        "note": "PARTIAL proof: guard theorem proved; set/walk/permutation theorems for every delta are open statements. Trusted: Lean kernel, hand-written model.",
+        "level": "proof",
+        "trusted_base": ["Model/Topo.lean: hand-written mirror of internal_edge(_sorted), internal_corner*, internal_edge_part*, external_edge_generic/struct"],
+        "open_statements": ["internal_edge_set (every delta)", "internal_edge_walk", "internal_edge_sorted_perm (every delta)", "external_edge_set"],
+        "assumptions": COMMON_ASSUME,
+    },
     "C15": {
         "claim": 'Theorems: each pack pass never lengthens the list, pack ends on a fixed point of the pass (a further pass merges nothing), to_lower_depth rejects new_depth>=depth_max. The fixed-depth builder is modelled as a state machine with explicit drain points and compared with the code for all push-sequence families x 9 capacities x 9 depths; pack/to_lower_depth on exhaustive universes and random trees; oracles check pushed-set equality, map preservation, no four full siblings, the lower-depth rule.',
         "note": 'PARTIAL proof: structural pack theorems proved; pack_sem/fixed_builder_sem/to_lower_depth_sem open. Trusted: Lean kernel, hand-written model, Vec capacity assumption.',
